@@ -22,7 +22,7 @@ ASSUMPTIONS = simlib.SIM_ASSUMPTIONS + [
 FUNCS = simlib.SIM_FUNCS + ["acnportal.acnsim.interface.Interface.active_sessions/infrastructure_info/last_applied_pilot_signals/last_actual_charging_rate/get_prev_peak/current_datetime"]
 
 
-def build(cx, stations, station_of, H, mr, n_recompute, poison, table, tag=""):
+def build(cx, stations, station_of, H, mr, n_recompute, poison, table, tag="", via_update=False):
     A = acn()
     from acnportal.algorithms import BaseAlgorithm
 
@@ -90,7 +90,21 @@ def build(cx, stations, station_of, H, mr, n_recompute, poison, table, tag=""):
                 active_sessions.clear()
             return {s[0]: [pilot(s[0], t)] for s in stations}
 
-    sim = make_sim(cx, net, Rec(), evs, recompute_at=table["rts"])
+    if via_update:
+        # the simulator is built with a placeholder scheduler (recomputing every 2 periods) which is then replaced through the public
+        # update_scheduler(): from then on only the new scheduler's max_recompute counts
+        class Placeholder(BaseAlgorithm):
+            def __init__(self):
+                super().__init__()
+                self.max_recompute = 2
+
+            def schedule(self, active_sessions):
+                return {}
+
+        sim = make_sim(cx, net, Placeholder(), evs, recompute_at=table["rts"])
+        sim.update_scheduler(Rec())
+    else:
+        sim = make_sim(cx, net, Rec(), evs, recompute_at=table["rts"])
     sim_ref[0] = sim
     return sim, net, evs, calls, snap
 
@@ -102,10 +116,10 @@ def inputs(cx, stations, station_of, H, n_recompute):
                 rts=[cx.int("r%d" % k, 0, H) for k in range(n_recompute)], p={})
 
 
-def h_view(cx, stations, station_of, H, mr, n_recompute):
+def h_view(cx, stations, station_of, H, mr, n_recompute, via_update=False):
     env.install(cx)
     tb = inputs(cx, stations, station_of, H, n_recompute)
-    sim, net, evs, calls, snap = build(cx, stations, station_of, H, mr, n_recompute, False, tb)
+    sim, net, evs, calls, snap = build(cx, stations, station_of, H, mr, n_recompute, False, tb, via_update=via_update)
     sim.run()
     cx.tag("terminated")
     n = sim.iteration
@@ -230,6 +244,12 @@ def jobs(tier):
                       expect_tags=("terminated", "session_observed") + (("not_invoked",) if mr != 1 else ()) + (("invoked_by_timer",) if mr else ()),
                       max_paths=100000, timeout=3000, bounds=dict(stations=len(st), sessions=len(so), horizon=H, max_recompute=mr, recompute_events=nrec),
                       cost=10 ** len(so) * H * H * (1 + nrec * H)))
+    for st, so, H, mr, nrec in ([(S1, (0, 0), 4, None, 0), (S2, (0, 1), 3, 3, 0)] if tier == "quick" else [(S2, (0, 0), 4, None, 1), (S2, (0, 1), 4, 3, 0), (S2, (0, 1), 4, 1, 0)]):
+        js.append(Job("view[n=%d,sess=%s,H=%d,mr=%s,rec=%d,via_update_scheduler]" % (len(st), "".join(map(str, so)), H, mr, nrec), h_view,
+                      dict(stations=st, station_of=so, H=H, mr=mr, n_recompute=nrec, via_update=True), functions=FUNCS + ["acnportal.acnsim.simulator.Simulator.update_scheduler"],
+                      expect_tags=("terminated", "session_observed") + (("not_invoked",) if mr != 1 else ()) + (("invoked_by_timer",) if mr else ()),
+                      max_paths=100000, timeout=3000, bounds=dict(stations=len(st), sessions=len(so), horizon=H, max_recompute=mr, recompute_events=nrec, scheduler="attached through update_scheduler() after construction with a placeholder (max_recompute 2)"),
+                      cost=10 ** len(so) * H * H))
     for st, so, H, mr, nrec in iso:
         js.append(Job("isolation[n=%d,sess=%s,H=%d,mr=%s,rec=%d]" % (len(st), "".join(map(str, so)), H, mr, nrec), h_isolation,
                       dict(stations=st, station_of=so, H=H, mr=mr, n_recompute=nrec), functions=FUNCS, expect_tags=("terminated",),
